@@ -3,6 +3,7 @@ package main
 // A Path is one execution of a harness entry under a decision prefix.
 
 import (
+	"sync"
 	"fmt"
 	"os"
 	"go/types"
@@ -13,6 +14,39 @@ import (
 )
 
 var traceUnsat = os.Getenv("SYMGO_TRACE_UNSAT") != ""
+
+// per-site counts of infeasible-branch queries (SYMGO_SITE_STATS=1): where the simplifier could save solver calls
+var (
+	siteStats map[string]int
+	siteMu    sync.Mutex
+)
+
+func init() {
+	if os.Getenv("SYMGO_SITE_STATS") != "" {
+		siteStats = map[string]int{}
+	}
+}
+
+func dumpSiteStats() {
+	if siteStats == nil {
+		return
+	}
+	type kv struct {
+		k string
+		n int
+	}
+	var all []kv
+	for k, n := range siteStats {
+		all = append(all, kv{k, n})
+	}
+	sort.Slice(all, func(i, j int) bool { return all[i].n > all[j].n })
+	for i, e := range all {
+		if i >= 40 {
+			break
+		}
+		fmt.Fprintf(os.Stderr, "  unsat-site %8d %s\n", e.n, e.k)
+	}
+}
 
 // control-flow panics of the engine
 type targetPanic struct{ v Value }       // Go-level panic in the interpreted program
@@ -72,6 +106,7 @@ type Path struct {
 	res    *PathResult
 	model  Model // satisfies the current path condition, or nil if unknown
 	known  map[int]bool
+	bounds map[int][2]uint64 // unsigned bounds of terms implied by the path condition
 	site   *frame
 	decVal uint64
 	lastNow *Term
@@ -192,6 +227,154 @@ func (p *Path) learn(t *Term, val bool) {
 		p.learn(t.A[1], false)
 	}
 	p.known[t.ID] = val
+	p.learnBounds(t, val)
+}
+
+// learnBounds records unsigned bounds implied by a comparison with a constant.
+func (p *Path) learnBounds(t *Term, val bool) {
+	if len(t.A) != 2 || t.A[0].W == 0 {
+		return
+	}
+	a, b := t.A[0], t.A[1]
+	set := func(x *Term, lo, hi uint64) {
+		if lo > hi {
+			return // contradictory: the path is infeasible anyway
+		}
+		if p.bounds == nil {
+			p.bounds = map[int][2]uint64{}
+		}
+		cur, ok := p.bounds[x.ID]
+		if !ok {
+			cur = [2]uint64{0, mask(x.W)}
+		}
+		if lo > cur[0] {
+			cur[0] = lo
+		}
+		if hi < cur[1] {
+			cur[1] = hi
+		}
+		if cur[0] <= cur[1] {
+			p.bounds[x.ID] = cur
+		}
+	}
+	switch t.Op {
+	case OEq:
+		if val {
+			if b.IsConst() {
+				set(a, b.K, b.K)
+			} else if a.IsConst() {
+				set(b, a.K, a.K)
+			}
+		}
+	case OUlt, OUle:
+		strict := t.Op == OUlt
+		if !val { // !(a < b) == b <= a ; !(a <= b) == b < a
+			a, b = b, a
+			strict = !strict
+		}
+		// now: a < b (strict) or a <= b
+		if b.IsConst() {
+			k := b.K
+			if strict {
+				if k == 0 {
+					return
+				}
+				k--
+			}
+			set(a, 0, k)
+		} else if a.IsConst() {
+			k := a.K
+			if strict {
+				if k == mask(b.W) {
+					return
+				}
+				k++
+			}
+			set(b, k, mask(b.W))
+		}
+	case OSlt, OSle:
+		// signed comparisons against a non-negative constant bound the value only
+		// from one side when the sign is unknown: x <s K (K>=0) says nothing about
+		// the unsigned value; K <=s x (K>=0) gives K <= x <= maxInt.
+		strict := t.Op == OSlt
+		if !val {
+			a, b = b, a
+			strict = !strict
+		}
+		if a.IsConst() && a.K <= mask(a.W)>>1 {
+			k := a.K
+			if strict {
+				if k == mask(a.W)>>1 {
+					return
+				}
+				k++
+			}
+			set(b, k, mask(b.W)>>1)
+		} else if b.IsConst() && b.K <= mask(b.W)>>1 {
+			// a <s K with a already known non-negative
+			if _, hi := urangeB(a, 0, p.lookBounds); hi <= mask(a.W)>>1 {
+				k := b.K
+				if strict {
+					if k == 0 {
+						return
+					}
+					k--
+				}
+				set(a, 0, k)
+			}
+		}
+	}
+}
+
+func (p *Path) lookBounds(t *Term) (uint64, uint64, bool) {
+	b, ok := p.bounds[t.ID]
+	return b[0], b[1], ok
+}
+
+// cmpByRange decides a comparison from value ranges: 1, 0 or -1.
+func (p *Path) cmpByRange(t *Term) int {
+	if len(p.bounds) == 0 {
+		return -1
+	}
+	a, b := t.A[0], t.A[1]
+	if a.W == 0 {
+		return -1
+	}
+	alo, ahi := urangeB(a, 0, p.lookBounds)
+	blo, bhi := urangeB(b, 0, p.lookBounds)
+	half := mask(a.W) >> 1
+	switch t.Op {
+	case OEq:
+		if ahi < blo || bhi < alo {
+			return 0
+		}
+		if alo == ahi && blo == bhi && alo == blo {
+			return 1
+		}
+	case OSlt, OSle:
+		if ahi > half || bhi > half {
+			return -1
+		}
+		fallthrough
+	case OUlt, OUle:
+		strict := t.Op == OUlt || t.Op == OSlt
+		if strict {
+			if ahi < blo {
+				return 1
+			}
+			if alo >= bhi {
+				return 0
+			}
+		} else {
+			if ahi <= blo {
+				return 1
+			}
+			if alo > bhi {
+				return 0
+			}
+		}
+	}
+	return -1
 }
 
 // eval3 partially evaluates a boolean term under the known literals:
@@ -254,7 +437,11 @@ func (p *Path) eval3(t *Term, depth int) int {
 				}
 				return 0
 			}
+		} else {
+			return p.cmpByRange(t)
 		}
+	case OUlt, OUle, OSlt, OSle:
+		return p.cmpByRange(t)
 	}
 	return -1
 }
@@ -381,6 +568,16 @@ func (p *Path) choose(kind string, opts []*Term) (pick int) {
 		}
 		r, m := p.sol.CheckT("choose-"+kind, rest, true)
 		if r == ResUnsat {
+			if siteStats != nil && p.site != nil {
+				bi := -1
+				if p.site.prevBlock != nil {
+					bi = p.site.prevBlock.Index
+				}
+				k := fmt.Sprintf("%s %s b%d", kind, p.site.fn.String(), bi)
+				siteMu.Lock()
+				siteStats[k]++
+				siteMu.Unlock()
+			}
 			if traceUnsat && p.site != nil {
 				bi := -1
 				if p.site.prevBlock != nil {
